@@ -24,13 +24,13 @@ PROPS = {
     "C08": dict(engine="objsim", profiles=["refs"], quick_runs=6000, slice=60, thorough_s=600, fit="native"),
     "C09": dict(engine="objsim", profiles=["copies"], quick_runs=6000, slice=60, thorough_s=600, fit="seam"),
     "C11": dict(engine="objsim", profiles=["misuse"], quick_runs=6000, slice=60, thorough_s=600, fit="native"),
-    "C20": dict(engine="objsim", profiles=["restart"], quick_runs=6000, slice=60, thorough_s=600, fit="native"),
+    "C20": dict(engine="hybridsim", profiles=["restart", "restart", "restart", "hybrid_restart"], quick_runs=4000, slice=60, thorough_s=600, fit="native"),
     "C10": dict(engine="objsim", profiles=["assign", "assign", "two_handles", "refs"], quick_runs=6000, slice=60, thorough_s=600, fit="native"),
     "C02": dict(engine="capisim", profiles=["c_readers", "c_readers", "c_readers_refs", "c_writers"], quick_runs=1600, slice=20, thorough_s=600, fit="weak", run_timeout=120),
     "C18": dict(engine="hybridsim", profiles=["hybrid", "hybrid", "hybrid_moves", "hybrid_restart"], quick_runs=5000, slice=50, thorough_s=600, fit="native"),
     "C19": dict(engine="hybridsim", profiles=["hybrid_dict", "hybrid_dict", "json"], quick_runs=5000, slice=50, thorough_s=300, fit="weak"),
-    "C15": dict(engine="accsim", profiles=["accessors"], quick_runs=480, slice=6, thorough_s=900, fit="weak", run_timeout=300),
-    "C16": dict(engine="devsim", profiles=["kernels"], quick_runs=640, slice=8, thorough_s=900, fit="native", run_timeout=180),
+    "C15": dict(engine="accsim", profiles=["accessors"], quick_runs=1200, slice=10, thorough_s=900, fit="weak", run_timeout=300),
+    "C16": dict(engine="devsim", profiles=["kernels"], quick_runs=1600, slice=10, thorough_s=900, fit="native", run_timeout=180),
     "C14": dict(engine="depsim", profiles=["builds"], quick_runs=1200, slice=20, thorough_s=600, fit="weak", run_timeout=180),
     "C17": dict(engine="capisim", profiles=["c_calls"], quick_runs=1600, slice=20, thorough_s=600, fit="seam", run_timeout=120),
     "C07": dict(engine="capisim", profiles=["c_writers", "c_writers", "sanitize", "c_writers", "c_readers_refs", "sanitize"], quick_runs=1200, slice=20, thorough_s=900, fit="weak", run_timeout=120),
